@@ -302,6 +302,10 @@ def mk_unit(kind_, j):
     ident = z3.IntVal(1000 + j)
     if kind_ == "dimension":
         return Obj("Dimension", {"__id__": ident}), ident
+    if kind_ == "quantity":
+        # an expected unit given as a QUANTITY (validate_output_same hands over the argument's value): what must reach the gate is
+        # its DIMENSION -- as a quantity, a zero / infinite reference would make the gate accept everything
+        return Obj("Quantity", {"__id__": z3.IntVal(3000 + j), "dimension": Obj("Dimension", {"__id__": ident})}), ident
     return Obj("Symbol" if kind_ == "dimsymbol" else "Symbolic", {"__id__": z3.IntVal(2000 + j), "dimension": Obj("Dimension", {"__id__": ident})}), ident
 
 
@@ -320,7 +324,7 @@ def deco_isinstance(ex, ctx, v, clsname):
 def obligations_decorators():
     obs, execs = [], []
     item_kinds = ("quantity", "dimsymbol", "symbolic", "other")
-    unit_kinds = ("dimension", "dimsymbol", "symbolic")
+    unit_kinds = ("dimension", "dimsymbol", "symbolic", "quantity")
     pname, fname = z3.String("param_name"), z3.String("function_name")
     nshape = 0
     # ---- _assert_expected_unit : scalar value, and sequences of length 0..2 (3 in the thorough tier), x scalar / tuple units
@@ -331,7 +335,7 @@ def obligations_decorators():
             shapes.append(("seq", ks, "scalar", ("dimension",)))
             shapes.append(("seq", ks, "scalar", ("dimsymbol",)))
             if n >= 1:
-                shapes.append(("seq", ks, "tuple", tuple(unit_kinds[(i + n) % 3] for i in range(n))))
+                shapes.append(("seq", ks, "tuple", tuple(unit_kinds[(i + n) % 4] for i in range(n))))
     for vshape, ks, ushape, us in shapes:
         nshape += 1
         g = {"assert_equivalent_dimension": ("__contract__", "gate"), "SymQuantity": TypeRef("SymQuantity"), "DimensionSymbol": TypeRef("DimensionSymbol"),
